@@ -36,6 +36,9 @@ P_RangeI(e) == [k |-> "rangei", of |-> e]
 P_NZ(p) == [k |-> "nz", p |-> p]
 P_Dur == [k |-> "dur"]
 P_Bits(s, o) == [k |-> "bits", store |-> s, order |-> o]
+\* a bit sequence whose store / order are type expressions (parameters of the enclosing definition); P_Order: the marker types
+P_BitsG(s, o) == [k |-> "bitsg", store |-> s, order |-> o]
+P_Order(n) == [k |-> "order", name |-> n]
 P_Adt(n, args) == [k |-> "adt", name |-> n, args |-> args]
 P_Assoc(p, n) == [k |-> "assoc", param |-> p, name |-> n]
 P_Phantom(e) == [k |-> "phantom", of |-> e]
@@ -74,6 +77,8 @@ Render(e) ==
     [] e.k = "nz"       -> NZName(e.p)
     [] e.k = "dur"      -> "Duration"
     [] e.k = "bits"     -> "BitVec<" \o e.store \o ", " \o e.order \o ">"
+    [] e.k = "bitsg"    -> "BitVec<" \o Render(e.store) \o ", " \o Render(e.order) \o ">"
+    [] e.k = "order"    -> e.name
     [] e.k = "adt"      -> IF Len(e.args) = 0 THEN e.name ELSE e.name \o "<" \o RenderList(e.args) \o ">"
     [] e.k = "assoc"    -> e.param \o "::" \o e.name
     [] e.k = "phantom"  -> "PhantomData<" \o Render(e.of) \o ">"
@@ -94,6 +99,7 @@ Subst(P, e, env) ==
     [] e.k = "res"      -> [e EXCEPT !.ok = Subst(P, @, env), !.err = Subst(P, @, env)]
     [] e.k = "btmap"    -> [e EXCEPT !.key = Subst(P, @, env), !.val = Subst(P, @, env)]
     [] e.k = "adt"      -> [e EXCEPT !.args = SubstList(P, @, env)]
+    [] e.k = "bitsg"    -> [e EXCEPT !.store = Subst(P, @, env), !.order = Subst(P, @, env)]
     [] OTHER            -> e
 
 (* ---- identity of a closed type: an outer Box is erased, Vec/VecDeque/slices are one ---- *)
@@ -104,6 +110,7 @@ RECURSIVE Norm(_)
 Norm(e) ==
   CASE e.k = "box"      -> Norm(e.of)
     [] e.k \in {"vec", "vecdeque"} -> [k |-> "seq", of |-> e.of]
+    [] e.k = "bitsg" /\ e.store.k = "prim" /\ e.order.k = "order" -> [k |-> "bits", store |-> e.store.p, order |-> e.order.name]
     [] OTHER            -> e
 
 Seq_(e) == [k |-> "seq", of |-> e]
